@@ -97,19 +97,34 @@ def dedup(repo: Repo) -> RuleRun:
         e.set("is_valid", valid)
         return e
 
+    def build(pre):
+        """An EdgeList made by its own constructor and filled through its own add() - whatever it keeps besides the list of edges"""
+        ev0 = Evaluator(repo=repo, module=add.module)
+        try:
+            this_ = ev0.instantiate(elist, [])
+        except (Raised, NotEvaluable) as err:
+            raise AnalysisError(f"EdgeList() not evaluable: {err}") from err
+        for e_ in pre:
+
+            def hook0(ev, call: ast.Call, name, e_=e_):
+                if name == "factory.create":
+                    return e_
+                return NO_MATCH
+
+            _run(Evaluator(repo=repo, module=add.module, call_hook=hook0), add, [this_, e_.get("vertex_1"), e_.get("vertex_2"), Sym("data")])
+        return this_
+
     for label, a, b, expect_found in (("same order", 1, 2, True), ("reversed order", 2, 1, True), ("other pair", 1, 3, False), ("shares one vertex", 2, 3, False)):
-        this = Obj("edge_list", cls=elist)
         e12 = mk_edge(1, 2)
-        this.set("edges", [mk_edge(5, 6), e12])
+        this = build([mk_edge(5, 6), e12])
         res = _run(Evaluator(repo=repo, module=find.module), find, [this, _vertex(a), _vertex(b)])
         ok = (res is e12) if expect_found else (isinstance(res, tuple) and res[0] == "raised" and res[1].endswith("EdgeNotFoundError"))
         r.check(ok, find, f"find({a},{b}) [{label}] -> {'found' if expect_found else 'EdgeNotFoundError'}", f"EdgeList.find({a},{b}) with an existing edge 1-2 ({label}) gives {res!r}", find.node, key=f"find:{label}")
 
     # an edge stored with descending vertex indexes must be found from either side as well
     for label, a, b in (("stored 8-0, asked 0-8", 0, 8), ("stored 8-0, asked 8-0", 8, 0)):
-        this = Obj("edge_list", cls=elist)
         e80 = mk_edge(8, 0)
-        this.set("edges", [mk_edge(5, 6), e80])
+        this = build([mk_edge(5, 6), e80])
         res = _run(Evaluator(repo=repo, module=find.module), find, [this, _vertex(a), _vertex(b)])
         r.check(res is e80, find, f"find [{label}] -> found", f"EdgeList.find({a},{b}) does not find the existing edge stored as 8-0 ({res!r}): the same geometric edge is appended a second time", find.node, key=f"find:{label}")
 
@@ -119,10 +134,11 @@ def dedup(repo: Repo) -> RuleRun:
         ("new and valid", 3, 4, True, 1, 2),
         ("new and valid, first vertex has the higher index", 9, 2, True, 1, 2),
         ("new but invalid (line / zero length / collinear arc)", 3, 4, False, 1, 1),
+        # a block that leaves the edge straight was added first: its (invalid, unlisted) line must not stand in for the curve a later block gives
+        ("valid, after an invalid line for the same pair was offered by an earlier block", 3, 4, True, 1, 2),
     ):
-        this = Obj("edge_list", cls=elist)
         e12 = mk_edge(1, 2)
-        this.set("edges", [e12])
+        this = build([e12, mk_edge(3, 4, valid=False)] if label.startswith("valid, after") else [e12])
         created = []
 
         def hook(ev, call: ast.Call, name, created=created, valid=valid):
